@@ -15,6 +15,11 @@ ValB == UNION {{VStr(y, e), VList(<<x>>, e), VSet({x}, e)} : e \in Phase}
 Dbs0 == UNION {{(ka :> va) @@ (kb :> vb) : va \in ValA, vb \in ValB}, {(ka :> va) : va \in ValA}, {(kb :> vb) : vb \in ValB}, {EmptyDb}}
 ExpStates == {WithDb0(InitServer({1}), d) : d \in Dbs0}
 
+ExpKind(nm) == CASE nm = "EXPIRE" -> "s" [] nm = "PEXPIRE" -> "ms" [] nm = "EXPIREAT" -> "ats" [] OTHER -> "atms"
+ExpRelevant(s, cmd) ==
+    ~(CmdName(cmd) \in {"EXPIRE", "PEXPIRE", "EXPIREAT", "PEXPIREAT"} /\ Len(cmd) = 4
+      /\ ExpireAmbiguous(Live(s.dbs[0], s.now), s.now, Tail(cmd), ExpKind(CmdName(cmd))))
+
 Opts == {<<>>, <<W("NX")>>, <<W("XX")>>, <<W("GT")>>, <<W("LT")>>, <<W("gt")>>, <<W("NX"), W("XX")>>, <<W("BOGUS")>>}
 ExpCmds ==
     UNION {
